@@ -37,7 +37,11 @@ func VerifCronParseNoPanic() {
 		maxTail = 2
 	}
 	tl := zzverif.Choose("tail_len", maxTail+1)
-	spec := pre + zzverif.String("tail", tl)
+	tail := zzverif.String("tail", tl)
+	for i := 0; i < len(tail); i++ {
+		zzverif.Assume(tail[i] < 0x80)
+	}
+	spec := pre + tail
 	var p Parser
 	if zzverif.Bool("all_fields") {
 		p = NewParser(Second | Minute | Hour | Dom | Month | Dow | Descriptor)
@@ -49,4 +53,23 @@ func VerifCronParseNoPanic() {
 		zzverif.Assert(s != nil, "schedule_or_error")
 	}
 	zzverif.Cover("cron_parse_returned")
+}
+
+// a single field expression: arbitrary bytes of length 0..3 (quick) / 4 never make getField panic, for every field
+//
+//verif:harness prop=C07 name=cron_field_nopanic unwind=40 solver=z3-new maxpaths=400000
+func VerifCronFieldNoPanic() {
+	fields := []bounds{seconds}
+	max := 3
+	if zzverif.Thorough() {
+		fields = []bounds{seconds, dom, months, dow}
+		max = 4
+	}
+	r := fields[zzverif.Choose("field", len(fields))]
+	expr := zzverif.String("expr", zzverif.Choose("len", max+1))
+	for i := 0; i < len(expr); i++ {
+		zzverif.Assume(expr[i] < 0x80) // ASCII (multi-byte runes would be enumerated value by value)
+	}
+	_, _ = getField(expr, r)
+	zzverif.Cover("cron_field_returned")
 }
